@@ -23,6 +23,8 @@ type Case struct {
 	Cfg  reg.Config `json:"cfg"`
 	Bars gen.Bars   `json:"bars"`
 	K    int        `json:"k"`
+	// Q selects the input position (and the variant) of the alignment probe.
+	Q int `json:"q,omitempty"`
 }
 
 func same(a, b float64) bool {
@@ -138,6 +140,42 @@ func check(ind reg.Ind, c Case, frontier bool) engine.Outcome {
 		}
 		o.Add("frontier_probes", 1)
 	}
+	// alignment probe (every indicator, any position): change ONE input position q; wherever the
+	// documented formula, evaluated at absolute positions, moves by more than both error bounds,
+	// value #(p - w) of the implementation must move too. A line that is displaced against the
+	// others (a pass-through or lagged column keeping the right length) reacts at the wrong index.
+	if want > 0 && ind.Defect == nil && c.Q > 0 {
+		q := c.Q % n
+		pb := perturb(c.Bars, q, (c.Q/n)%4)
+		r2, _ := ind.Run(c.Cfg, pb, pipe.Opts{})
+		if !r2.OK() {
+			o.Failf("%s %v: perturbed run did not terminate: %s", ind.Name, c.Cfg, r2.Verdict)
+			return o
+		}
+		baseRef := ind.Ref(c.Cfg, ind.RefIn(c.Bars))
+		pertRef := ind.Ref(c.Cfg, ind.RefIn(pb))
+		for j := range res.Outs {
+			if len(r2.Outs[j]) != want {
+				o.Failf("%s %v: changing a value changed the number of outputs", ind.Name, c.Cfg)
+				return o
+			}
+			for i := 0; i < want; i++ {
+				b0, ok0 := baseRef[j].Get(i + w)
+				b1, ok1 := pertRef[j].Get(i + w)
+				if !ok0 || !ok1 || b0.IsBad() || b1.IsBad() {
+					continue
+				}
+				if math.Abs(b0.V-b1.V) > 2*ref.Slack*(b0.E+b1.E) {
+					o.Add("alignment_probe_positions", 1)
+					if same(res.Outs[j][i], r2.Outs[j][i]) {
+						o.Failf("%s %v n=%d: changing input position %d moves the documented value of output %q at position %d (%v -> %v), but value #%d = position %d - idle period %d stayed %v", ind.Name, c.Cfg, n, q, ind.Outs[j], i+w, b0.V, b1.V, i, i+w, w, res.Outs[j][i])
+						return o
+					}
+				}
+			}
+		}
+		o.Add("alignment_probes", 1)
+	}
 	o.NonTrivial = n <= w+2 || len(res.Outs) > 1
 	if n <= w {
 		o.Class("n<=idle")
@@ -172,7 +210,7 @@ func prop(ind reg.Ind) engine.Prop[Case] {
 			if rapid.IntRange(0, 9).Draw(t, "long") == 0 {
 				n = rapid.IntRange(0, 3*w+30).Draw(t, "n2")
 			}
-			return Case{Cfg: cfg, Bars: gen.GenBarsOf(t, n, rapid.SampledFrom([]string{"walk", "walk", "ties", "zeros", "flat"}).Draw(t, "class")), K: rapid.IntRange(0, 1000).Draw(t, "k")}
+			return Case{Cfg: cfg, Bars: gen.GenBarsOf(t, n, rapid.SampledFrom([]string{"walk", "walk", "ties", "zeros", "flat"}).Draw(t, "class")), K: rapid.IntRange(0, 1000).Draw(t, "k"), Q: rapid.IntRange(0, 4000).Draw(t, "q")}
 		},
 		Check: func(c Case) engine.Outcome { return check(ind, c, true) },
 	}
